@@ -42,6 +42,8 @@ class Stats:
         self.counters: Counter[str] = Counter()  # faults fired, probes, discards ...
         self.states: set[str] = set()
         self.samples: list[Any] = []
+        self.chain = ""  # running digest of the event logs and outcomes of this case (determinism self-test)
+        self.case_chains: dict[str, str] = {}
 
     def bump(self, key: str, n: int = 1) -> None:
         self.counters[key] += n
@@ -59,10 +61,29 @@ class Stats:
         for s in other.samples:
             if len(self.samples) < 6:
                 self.samples.append(s)
+        self.case_chains.update(other.case_chains)
+
+    def chain_add(self, *parts: Any) -> None:
+        if os.environ.get("VERIF_CHAIN_DEBUG"):
+            # readable trail instead of a digest (debugging aid for selftest/determinism.py)
+            self.chain += "|" + ",".join(core.digest(p)[:6] if not isinstance(p, (int, str, type(None))) else str(p) for p in parts)
+            return
+        self.chain = core.digest([self.chain, parts])
 
     def add_outcome(self, outcome: dict[str, Any]) -> None:
         """Account one execution's I/O events, faults and steps."""
         self.evaluations += 1
+        self.chain_add(
+            outcome.get("events"),
+            outcome.get("kind"),
+            outcome.get("ret"),
+            outcome.get("exc"),
+            outcome.get("steps"),
+            outcome.get("fired"),
+            [(a, core.digest(b)) for a, b in (outcome.get("blocks") or [])],
+            outcome.get("labels"),
+            sorted((k, core.digest(v)) for k, v in (outcome.get("outs") or {}).items()),
+        )
         self.io_ops += len(outcome.get("events") or ())
         self.steps += int(outcome.get("steps") or 0)
         for f in outcome.get("fired") or ():
@@ -143,7 +164,11 @@ def _worker_chunk(prop: str, seed: int, tier: str, items: list[Any]) -> tuple[St
             else:
                 case = payload
             stats.cases += 1
+            stats.chain = ""
             vs = mod.run_case(case, stats)
+            stats.chain_add([v.to_dict() for v in vs])
+            ckey = f"seeded:{payload}" if kind == "seeded" else "fixed:" + core.digest(case)
+            stats.case_chains[ckey] = stats.chain
             if len(stats.samples) < 2:
                 stats.samples.append(mod.sample_of(case) if hasattr(mod, "sample_of") else core.to_jsonable(case))
             for v in vs:
@@ -190,7 +215,7 @@ def minimise(mod: Any, case: Any, klass: str, budget_s: float) -> tuple[Any, int
 
 
 def write_replay(prop: str, seed: int, case: Any, v: dict[str, Any], minimised: bool, note: str = "") -> str:
-    d = os.path.join(core.VERIF_DIR, "replays")
+    d = os.environ.get("VERIF_REPLAY_DIR") or os.path.join(core.VERIF_DIR, "replays")
     os.makedirs(d, exist_ok=True)
     name = f"{prop}-{core.digest([case, v['class']])[:12]}.json"
     path = os.path.join(d, name)
@@ -400,8 +425,12 @@ def run_check(prop: str, tier: str, seed: int, jobs: int, budget_s: float) -> in
         "wall_s": round(wall, 2),
         "violations": n_viol,
     }
-    os.makedirs(os.path.join(core.VERIF_DIR, "evidence"), exist_ok=True)
-    evpath = os.path.join(core.VERIF_DIR, "evidence", f"{prop}.json")
+    evdir = os.environ.get("VERIF_EVIDENCE_DIR") or os.path.join(core.VERIF_DIR, "evidence")
+    os.makedirs(evdir, exist_ok=True)
+    evpath = os.path.join(evdir, f"{prop}.json")
+    if os.environ.get("VERIF_DIGESTS"):
+        with open(os.environ["VERIF_DIGESTS"], "w", encoding="utf-8") as f:
+            json.dump(total.case_chains, f, sort_keys=True, indent=0)
     tmp = evpath + ".tmp"
     with open(tmp, "w", encoding="utf-8") as f:
         json.dump(evidence, f, indent=1, sort_keys=True)
